@@ -5,7 +5,8 @@
     [xs], [ys] range over ALL lists of readings, [ss] over ALL lists of individual uncertainties, [ops] over
     ALL finite histories of the four use_* selectors. *)
 From Coq Require Import List ZArith QArith Bool.
-From QV Require Import Model.Stats Model.Corr Proofs.Stats Proofs.Corr Proofs.StatsCorr.
+From Coq Require Import Reals.
+From QV Require Import Model.Stats Model.Corr Proofs.Stats Proofs.Corr Proofs.StatsCorr Proofs.StatsR.
 Import ListNotations.
 Open Scope Q_scope.
 
@@ -19,6 +20,20 @@ Theorem C10_stats : forall xs ss,
   r_value r == r_mean r /\ r_err_sq r == r_eom_sq r /\ r_xs r = xs.
 Proof. exact stats_lemma. Qed.
 Print Assumptions C10_stats.
+
+(** the same with real square roots: std = sqrt(sum (x-mean)^2/(n-1)) and std/sqrt(n) are the non-negative
+    reals whose squares the model carries; a non-negative number is determined by its square *)
+Theorem C10_stats_R : forall xs, (2 <= length xs)%nat ->
+  (std_R xs * std_R xs = Q2R (t_var xs))%R /\
+  (eom_R xs = sqrt (Q2R (t_eom_sq xs)))%R /\
+  (eom_R xs * eom_R xs = Q2R (t_eom_sq xs))%R /\
+  (0 <= std_R xs)%R /\ (0 <= eom_R xs)%R.
+Proof. exact stats_R. Qed.
+Print Assumptions C10_stats_R.
+
+Theorem C10_square_determines : forall (e : R) (v : Q), (0 <= e)%R -> (e * e = Q2R v)%R -> e = sqrt (Q2R v).
+Proof. exact square_determines. Qed.
+Print Assumptions C10_square_determines.
 
 (** every function of the model of the code equals its textbook definition *)
 Theorem C10_model_is_textbook : forall xs ys ss,
